@@ -26,16 +26,28 @@ def gen_ubm(r, C=None, D=None):
     return make_gmm(w, mu, var), s
 
 
-def gen_stats(r, ubm, nsess, frac=True):
-    """Statistics of nsess sessions: UBM statistics of random frames, optionally rescaled to fractional counts."""
+def gen_stats(r, ubm, nsess, frac=True, zero=False):
+    """Statistics of nsess sessions: UBM statistics of random frames, optionally rescaled to fractional counts.
+    The arrays come in various memory layouts (C order, Fortran order, strided views): only the VALUES are the input.
+    zero=True: a zero-frame session may sit anywhere in a list of two or more."""
     C, D = ubm.means.shape
     out = []
-    for _ in range(nsess):
+    zpos = r.randrange(nsess) if (zero and nsess >= 2 and r.random() < 0.5) else None
+    for k_ in range(nsess):
+        if k_ == zpos:
+            out.append(GMMStats(C, D))
+            continue
         X = gen.sample_from(r, np.asarray(ubm.weights), np.asarray(ubm.means) + r.uniform(-1, 1), np.asarray(ubm.variances) * 1.5, r.choice([2, 5, 9]))
         s = ubm.acc_stats(X)
         if frac and r.random() < 0.4:
             k = r.uniform(0.2, 1.7)
             s.n, s.sum_px, s.sum_pxx = s.n * k, s.sum_px * k, s.sum_pxx * k
+        lay = r.random()
+        if lay < 0.3:
+            s.sum_px, s.sum_pxx = np.asfortranarray(s.sum_px), np.asfortranarray(s.sum_pxx)
+        elif lay < 0.45:
+            s.sum_px = np.repeat(np.asarray(s.sum_px), 2, axis=1)[:, ::2]
+            s.n = np.repeat(np.asarray(s.n), 2)[::2]
         out.append(s)
     return out
 
@@ -52,6 +64,9 @@ def make_machine(kind, ubm, rU, rV, U=None, V=None, Dv=None, r=None, dscale=1.0,
         if kind == "jfa":
             m.V = g.normal(size=(CD, rV)) * 0.7
         m.D = np.abs(g.normal(size=CD)) * dscale + 0.05 * dscale
+        if r.random() < 0.5:
+            # "all initial U, V, D": D is a diagonal factor loading, its entries may carry either sign
+            m.D = np.asarray(m.D) * g.choice([-1.0, 1.0], size=CD)
     if U is not None:
         m.U = U
     if V is not None:
